@@ -92,6 +92,12 @@ def run(tier, rep):
                 full = name + "".join(f"_{i:02d}" for i in idx)
                 rid3, _, _ = corp.add(var, 1, keep_msg=True, lbl=False, ident=ident, profile=pn + "+flip")
                 rel.append(("FieldLocal", rid, rid3, (name, full)))
+    if not quick:
+        from .. import covfuzz
+
+        for pl, lab in covfuzz.expand_decode([(c[2], c[3].layout) for c in cases], budget_s=90, tag="c03-cov"):
+            corp.add(pl, 1, lbl=False, ident="covfuzz", profile="covfuzz")
+        rep.notes["coverage_guided"] = dict(covfuzz.expand_decode.stats)
     verdicts = corp.judge()
     for r in corp.recs:
         v = verdicts[r["rid"]]
